@@ -133,6 +133,19 @@ _run_counter = [0]
 
 
 def run_tlc(module, cfg_text, env=None, workers=1, timeout=900, simulate=None, extra_args=(), heap="6g", keep_json=True, tag=""):
+    """Run TLC (see _run_tlc_once).  A run that ends without any verdict - the JVM was killed (out-of-memory killer on a loaded
+    machine) or crashed before TLC printed a result - is repeated once; a verdict (completed, violated, TLC error, timeout) never is."""
+    res = _run_tlc_once(module, cfg_text, env, workers, timeout, simulate, extra_args, heap, keep_json, tag)
+    if not res.ok and res.violated is None and res.error is None:
+        time.sleep(5)
+        res2 = _run_tlc_once(module, cfg_text, env, workers, timeout, simulate, extra_args, heap, keep_json, tag + "-retry")
+        if not res2.ok and res2.violated is None and res2.error is None:
+            res2.error = "TLC ended twice without a verdict (exit status of the JVM: killed or crashed)"
+        return res2
+    return res
+
+
+def _run_tlc_once(module, cfg_text, env=None, workers=1, timeout=900, simulate=None, extra_args=(), heap="6g", keep_json=True, tag=""):
     """Run TLC on spec/<module>.tla with the given configuration text. Every run has its own metadir.
     ONE worker per process by default: the specifications park evaluated tables in TLC registers (TLCSet/TLCGet), and values shared
     between worker threads are normalised lazily without synchronisation - with 6 workers TLC silently dropped an element of a
